@@ -36,6 +36,7 @@ class Contract:
         self.ghost_pre = d.get("ghost_pre", {})        # name -> expr, evaluated in the pre-state, usable in ensures
         self.param_assume = d.get("assume_params", True)
         self.ghost_code = list(d.get("ghost_code", []))     # [(statement prefix, [(ghost name, index text | None, value text)])]
+        self.path_ensures = dict(d.get("path_ensures", {}))   # name -> (trace marker, clause): obligations of marked paths only
         self.reveals = list(d.get("reveals", []))           # opaque spec functions whose definition this proof may open
         self.uses_lemmas = list(d.get("uses_lemmas", []))   # proved lemmas available as quantified facts inside this function
         self.uses_marks = d.get("uses_marks", False)     # the function works on the splitter's ghost mark model (A-RE axioms apply)
@@ -534,6 +535,10 @@ class ContractMixin:
                             props=c.clause_props(spec.get("tag", "")))
         for cname, text in c.ensures.items():
             self.oblige_spec(s, fr, "ensures", cname, text, props=c.clause_props(cname), extra=extra)
+        # postconditions of the paths on which a marked event happened (e.g. a third-party call raised)
+        for cname, (marker, text) in c.path_ensures.items():
+            if any(marker in t for t in s.trace):
+                self.oblige_spec(s, fr, "ensures", cname, text, props=c.clause_props(cname), extra=extra)
         self.check_frame(fi, c, fr, s)
 
     def check_exceptional_exit(self, fi, c, fr, s, exc):
